@@ -37,6 +37,7 @@ type Solver struct {
 	logged  int
 	Timeout int // ms per query
 	Timeouts int
+	IntQueries int
 	slowLogged int
 }
 
@@ -87,29 +88,41 @@ func (s *Solver) Close() {
 func (s *Solver) Check(cons []*Term, doms map[*Term]*[4]uint64, wantModel []*Term) (SatResult, map[*Term]uint64, string) {
 	start := time.Now()
 	var sb strings.Builder
-	sb.WriteString("(reset)\n(set-option :produce-models true)\n")
-	w := newSMTWriter(&sb)
-	seen := map[*Term]bool{}
-	var vars []*Term
-	for _, c := range cons {
-		CollectVars(c, seen, &vars)
-	}
-	for _, v := range wantModel {
-		CollectVars(v, seen, &vars)
-	}
-	w.declareVars(vars)
-	for _, v := range vars {
-		if d, ok := doms[v]; ok {
-			if e := domainExpr(v.Name, d); e != "" {
-				fmt.Fprintf(&sb, "(assert %s)\n", e)
-			}
+	intMode := false
+	if addNodes(cons) > 64 {
+		if sc, _, ok, why := intScript(cons, doms, wantModel); ok {
+			sb.WriteString(sc)
+			intMode = true
+			s.IntQueries++
+		} else if s.LogDir != "" {
+			fmt.Fprintf(os.Stderr, "int encoding not applicable: %s\n", why)
 		}
 	}
-	for _, c := range cons {
-		r := w.ref(c)
-		fmt.Fprintf(&sb, "(assert %s)\n", r)
+	if !intMode {
+		sb.WriteString("(reset)\n(set-option :produce-models true)\n")
+		w := newSMTWriter(&sb)
+		seen := map[*Term]bool{}
+		var vars []*Term
+		for _, c := range cons {
+			CollectVars(c, seen, &vars)
+		}
+		for _, v := range wantModel {
+			CollectVars(v, seen, &vars)
+		}
+		w.declareVars(vars)
+		for _, v := range vars {
+			if d, ok := doms[v]; ok {
+				if e := domainExpr(v.Name, d); e != "" {
+					fmt.Fprintf(&sb, "(assert %s)\n", e)
+				}
+			}
+		}
+		for _, c := range cons {
+			r := w.ref(c)
+			fmt.Fprintf(&sb, "(assert %s)\n", r)
+		}
+		sb.WriteString("(check-sat)\n")
 	}
-	sb.WriteString("(check-sat)\n")
 	script := sb.String()
 	s.Queries++
 	if s.LogDir != "" && s.logged < 5 {
@@ -287,6 +300,12 @@ func parseValues(txt string, vars []*Term, out map[*Term]uint64) {
 			x, _ = strconv.ParseUint(val[2:], 16, 64)
 		case strings.HasPrefix(val, "#b"):
 			x, _ = strconv.ParseUint(val[2:], 2, 64)
+		case val == "-" && i+2 < len(toks):
+			n, _ := strconv.ParseInt(toks[i+2], 10, 64)
+			x = uint64(-n) & mask(v.W)
+			i++
+		case len(val) > 0 && val[0] >= '0' && val[0] <= '9':
+			x, _ = strconv.ParseUint(val, 10, 64)
 		case val == "true":
 			x = 1
 		case val == "false":
